@@ -9,7 +9,8 @@
   non-negative weights summing to 1) — the property's quantifier.  No bound on string length,
   number of names, list length or number of families anywhere.
 -/
-import Gedcom.Lemmas.ListSymm
+import Gedcom.Lemmas.ListTies
+import Gedcom.Model.SimilarityRaw
 namespace Gedcom.C12
 open Gedcom Gedcom.Sim
 
@@ -139,6 +140,26 @@ theorem individual_self (x : Indi) (o : SimOpts) (hp : o.jaroPrefixSize ≤ 10)
     (b d : DateR) (hb : x.birth = some b) (hd : x.death = some d) :
     individualSimilarity (some x) (some x) o = 1 := indiSimilarity_self x o hp n hn hne b d hb hd
 
+/-! ## From the raw record: DATE strings parsed by the model of `NewDateRangeWithString`, estimated
+      dates selected as `EstimatedBirthDate/DeathDate` do (what the driver runs on the wire) -/
+
+/-- for every pair of DATE values whatsoever — valid, approximate, ranges, phrases, rubbish -/
+theorem date_string_laws (l r : Option Str) (s : Str) (maxYears : Rat) :
+    (0 ≤ dateStringSimilarity l r maxYears ∧ dateStringSimilarity l r maxYears ≤ 1) ∧
+    dateStringSimilarity l r maxYears = dateStringSimilarity r l maxYears ∧
+    dateStringSimilarity (some s) (some s) maxYears = 1 ∧
+    dateStringSimilarity none r maxYears = 1 / 2 := by
+  refine ⟨dateSimilarity_bounds' _ _ _, dateSimilarity_comm' _ _ _, dateSimilarity_same _ _, ?_⟩
+  cases r <;> simp [dateStringSimilarity, dateSimilarity]
+
+/-- bounds and operand-order independence for individuals given as raw records -/
+theorem raw_individual_laws (x y : Option RawIndi) (o : SimOpts) (ho : o.Valid) :
+    (0 ≤ individualSimilarity (x.map RawIndi.toIndi) (y.map RawIndi.toIndi) o ∧
+      individualSimilarity (x.map RawIndi.toIndi) (y.map RawIndi.toIndi) o ≤ 1) ∧
+    individualSimilarity (x.map RawIndi.toIndi) (y.map RawIndi.toIndi) o =
+      individualSimilarity (y.map RawIndi.toIndi) (x.map RawIndi.toIndi) o :=
+  ⟨individual_bounds _ _ o ho, individual_symm _ _ o⟩
+
 /-! ## Lists, families, surrounding similarity -/
 
 /-- for lists of any length, with duplicates and with people shared between the two sides: the
@@ -153,24 +174,31 @@ theorem list_missing_is_half (xs : List Indi) (o : SimOpts) (h : xs ≠ []) :
   have : xs.length ≠ 0 := fun e => h (List.length_eq_zero_iff.mp e)
   simp [listSimilarity, this]
 
-/-- no two cells of the matrix of pairwise scores tie -/
-def NoScoreTies (xs ys : List Indi) (o : SimOpts) : Prop := ((matrix xs ys o).map (·.sim)).Nodup
+/-- no individual (node) occurs twice inside the list -/
+def NoRepeats (xs : List Indi) : Prop := (xs.map (·.id)).Nodup
 
-instance (xs ys : List Indi) (o : SimOpts) : Decidable (NoScoreTies xs ys o) := by
-  unfold NoScoreTies; exact inferInstance
+instance (xs : List Indi) : Decidable (NoRepeats xs) := by unfold NoRepeats; exact inferInstance
 
 /-
-  Full statement (not proved, not refuted): `list_symm` without the guard.  With ties the two
-  runs sort equal scores in different orders; cells whose relative order differs share neither a
-  row nor a column, which suggests the sum is unaffected, but that exchange argument is not
-  formalised.  The harness checks list and weighted symmetry on the implementation for every
-  generated case, ties included (within 1e-12: summation order).
+  Full statement: `list_symm` without `NoRepeats`.  Not proved and not refuted: with an
+  individual repeated inside one list the rows of the score matrix repeat; no asymmetry exists
+  among all lists of length ≤ 3 over 5 individuals on the implementation (73 008 cases, 3
+  thresholds) nor in 400 000 random abstract instances, but the argument below needs "same left
+  individual ⇔ same row".
+
+  Before the fix "list similarity tracks matched individuals per side" the statement was false
+  even under `NoRepeats` as soon as the two lists shared an individual (one `found` map for both
+  sides): {P0,P1} vs {P3,P1,P0} scored 2/3 one way and 5/6 the other (see fixes/C12-list-found-
+  per-side.msg; the harness replays it on every run).
 -/
 
-/-- list similarity does not depend on the operand order when no two candidate pairs tie on
-    score (lists of any length) -/
-theorem list_symm_partial (xs ys : List Indi) (o : SimOpts) (h : NoScoreTies xs ys o) :
-    listSimilarity xs ys o = listSimilarity ys xs o := listSimilarity_symm' xs ys o h
+/-- list similarity does not depend on the operand order — score ties included, lists of any
+    length, the two lists may share individuals.  The winner loop over the stably sorted matrix
+    is the greedy selection for "higher score, then row, then column"; the swapped call is the
+    one for "higher score, then column, then row"; cells that can block each other are ordered
+    alike by both, and the accepted set is determined by that (unique fixed point). -/
+theorem list_symm (xs ys : List Indi) (o : SimOpts) (hx : NoRepeats xs) (hy : NoRepeats ys) :
+    listSimilarity xs ys o = listSimilarity ys xs o := listSimilarity_symm_ties xs ys o hx hy
 
 theorem family_bounds (f g : Fam) (o : SimOpts) (ho : o.Valid) :
     0 ≤ familySimilarity f g o ∧ familySimilarity f g o ≤ 1 := familySimilarity_bounds' f g o ho
@@ -198,15 +226,17 @@ theorem family_missing_is_half (g : Fam) (o : SimOpts) :
 theorem surrounding_bounds (x y : Surround) (o : SimOpts) (force : Bool) (ho : o.Valid) :
     (surroundingSimilarity x y o force).WF := surroundingSimilarity_wf x y o force ho
 
-/-- all four components (hence the weighted score) do not depend on the operand order when neither
-    the spouses' nor the children's score matrix has ties -/
-theorem surrounding_symm_partial (x y : Surround) (o : SimOpts) (force : Bool)
-    (hs : NoScoreTies x.spouses y.spouses o) (hc : NoScoreTies x.children y.children o) :
+/-- all four components (hence the weighted score) do not depend on the operand order when no
+    spouse and no child is listed twice -/
+theorem surrounding_symm (x y : Surround) (o : SimOpts) (force : Bool)
+    (h1 : NoRepeats x.spouses) (h2 : NoRepeats y.spouses)
+    (h3 : NoRepeats x.children) (h4 : NoRepeats y.children) :
     surroundingSimilarity x y o force = surroundingSimilarity y x o force := by
   unfold surroundingSimilarity
   simp only
   rw [indiSimilarity_symm x.self y.self o, parents_symm x.parents y.parents o,
-    listSimilarity_symm' x.spouses y.spouses o hs, listSimilarity_symm' x.children y.children o hc]
+    listSimilarity_symm_ties x.spouses y.spouses o h1 h2,
+    listSimilarity_symm_ties x.children y.children o h3 h4]
 
 theorem default_options_valid : defaultOpts.Valid := defaultOpts_valid
 
@@ -237,5 +267,15 @@ example : defaultOpts.Valid := defaultOpts_valid
 -- a date pair strictly inside the parabola: 1900 vs 1901, MaxYears 3
 example : dateSimilarity (some ⟨⟨0, 0, 1900⟩, ⟨0, 0, 1900⟩⟩) (some ⟨⟨0, 0, 1901⟩, ⟨0, 0, 1901⟩⟩) 3 = 8 / 9 := by
   decide +kernel
+
+-- the witness of the fix "list similarity tracks matched individuals per side": three people of
+-- one document, tie-heavy (P0~P1 and P1~P3 score 1), the two lists share P0 and P1
+def wDate : Option DateR := some ⟨⟨0, 0, 1900⟩, ⟨0, 0, 1900⟩⟩
+def wP0 : Indi := ⟨0, [[74, 111, 104, 110, 32, 83, 109, 105, 116, 104]], wDate, wDate⟩
+def wP1 : Indi := ⟨1, [[74, 111, 104, 110, 32, 83, 109, 105, 116, 104], [74, 97, 110, 101, 32, 68, 111, 101]], wDate, wDate⟩
+def wP3 : Indi := ⟨3, [[74, 97, 110, 101, 32, 68, 111, 101]], wDate, wDate⟩
+example : NoRepeats [wP0, wP1] ∧ NoRepeats [wP3, wP1, wP0] ∧
+    listSimilarity [wP0, wP1] [wP3, wP1, wP0] defaultOpts = 5 / 6 ∧
+    listSimilarity [wP3, wP1, wP0] [wP0, wP1] defaultOpts = 5 / 6 := by decide +kernel
 
 end Gedcom.C12
